@@ -16,9 +16,14 @@ def gen_cases(seed, tier):
     rng = random.Random(seed * 7001 + 5); n = 200 if tier == "quick" else 2500
     cases = []
     for _ in range(n):
-        c = c06.gen_case(rng, kind="ssa"); c["safe"] = False
+        c = c06.gen_case(rng, kind="ssa")
+        # a third of the cases keep the safe interface (its propensities are the master equation's too: a reaction short of a
+        # reactant has propensity 0 there) -- seeded change S4_C05: the safe interface's "short of a reactant" flag leaked from one
+        # reaction to the next
+        keep_safe = c["safe"] and rng.random() < 0.5 or rng.random() < 0.15
+        c["safe"] = bool(keep_safe)
         # plain interface: keep consumers mass action so that states stay non-negative
-        for rx in c["spec"]["reactions"]:
+        for rx in ([] if keep_safe else c["spec"]["reactions"]):
             # the plain interface cannot hold back a reaction whose DELAYED part consumes (applied at once here): no delayed reactants
             if "delay" in rx: rx["delay"]["reactants"] = []
             if rx["reactants"] and rx["type"] != "massaction":
